@@ -6,7 +6,6 @@
 use proptest::prelude::*;
 use serde_json::{json, Value};
 use std::collections::HashMap;
-use std::io::Write;
 use std::time::Duration;
 use vl_model::classify::{classify, Class};
 use vl_model::ctx::{hash64, load_replay, ncpu, parallel, Acc, Args, Ctx, Tier};
@@ -400,36 +399,7 @@ fn mutated_json(syms: &[Sym], style: u8, m: &Mutated) -> Value {
     })
 }
 
-// ------------------------------------------------------------------------------------------------
-// journal (child side)
-
-struct Journal {
-    file: Option<std::fs::File>,
-}
-
-impl Journal {
-    fn open(worker: usize) -> Journal {
-        let file = std::env::var_os("VL_JOURNAL").and_then(|d| {
-            std::fs::OpenOptions::new()
-                .create(true)
-                .write(true)
-                .truncate(true)
-                .open(std::path::Path::new(&d).join(format!("w{}.journal", worker)))
-                .ok()
-        });
-        Journal { file }
-    }
-    /// Record the case about to run (overwrites the previous record: only the last one matters).
-    fn note(&mut self, v: &Value) {
-        if let Some(f) = self.file.as_mut() {
-            use std::io::Seek;
-            let s = v.to_string();
-            let _ = f.seek(std::io::SeekFrom::Start(0));
-            let _ = f.set_len(0);
-            let _ = f.write_all(s.as_bytes());
-        }
-    }
-}
+use vl_model::isolate::{self, Journal};
 
 fn systematic(ctx: &mut Ctx) {
     let corp = corpus();
@@ -821,9 +791,8 @@ fn child_main(args: &Args) -> ! {
         replay_case(&mut ctx, &v["case"]);
         ctx.finish();
     }
-    if let Ok(one) = std::env::var("VL_ONE_CASE") {
+    if let Some(cj) = isolate::one_case() {
         // confirmation run of a journaled case (parent decides from our exit status)
-        let cj: Value = serde_json::from_str(&one).unwrap_or(Value::Null);
         replay_case(&mut ctx, &cj);
         std::process::exit(if ctx.failed() { 1 } else { 0 });
     }
@@ -840,53 +809,8 @@ fn child_main(args: &Args) -> ! {
 }
 
 pub fn run(args: &Args) -> ! {
-    if std::env::var_os("VL_CHILD").is_some() {
+    if isolate::is_child() {
         child_main(args);
     }
-    // parent: run the check in a child so that an abort of the process is attributed to a case
-    let scratch = Scratch::new("c06j");
-    let exe = std::env::current_exe().expect("current_exe");
-    let status = std::process::Command::new(&exe)
-        .args(std::env::args().skip(1))
-        .env("VL_CHILD", "1")
-        .env("VL_JOURNAL", &scratch.path)
-        .status()
-        .expect("spawn child");
-    if let Some(code) = status.code() {
-        if (0..=2).contains(&code) {
-            std::process::exit(code);
-        }
-    }
-    // the child died: which journaled case reproduces the death?
-    let mut ctx = Ctx::new(args, "fault_enumeration");
-    ctx.rule = RULE.into();
-    let mut confirmed = false;
-    if let Ok(rd) = std::fs::read_dir(&scratch.path) {
-        for e in rd.flatten() {
-            let Ok(s) = std::fs::read_to_string(e.path()) else { continue };
-            let Ok(cj) = serde_json::from_str::<Value>(&s) else { continue };
-            ctx.case(None);
-            let st = std::process::Command::new(&exe)
-                .args(std::env::args().skip(1))
-                .env("VL_CHILD", "1")
-                .env("VL_ONE_CASE", cj.to_string())
-                .status();
-            let died = st.as_ref().map(|s| s.code().map(|c| !(0..=2).contains(&c)).unwrap_or(true)).unwrap_or(false);
-            if died {
-                confirmed = true;
-                ctx.force_sample(cj.clone());
-                ctx.violation(
-                    "handle/process-abort",
-                    &format!("the process died ({:?}) while handle() processed this input; reproduced in isolation", st.ok()),
-                    "c06-mem",
-                    cj,
-                );
-            }
-        }
-    }
-    if !confirmed {
-        ctx.inconclusive(&format!("the check process ended abnormally ({:?}) and no journaled case reproduces it", status));
-        ctx.case(None);
-    }
-    ctx.finish()
+    isolate::supervise(args, "fault_enumeration", RULE, "handle/process-abort", "c06-mem")
 }
